@@ -86,9 +86,12 @@ def taskproc(task: Task) -> Result:
     except KeyboardInterrupt:
         task.stop.set()
         raise
-    except RuntimeError:
-        raise
-    except (Exception, RecursionError) as e:
+    except Exception as e:
+        # NOTE a RuntimeError is not the payload's doing and ends the run, but
+        #   RecursionError (a RuntimeError by inheritance only) is: an input
+        #   nested too deeply for the function fails that payload, not the rest
+        if isinstance(e, RuntimeError) and not isinstance(e, RecursionError):
+            raise
         result.exception = e
         if task.reraise or (
             (raises := task.payload.raises())
